@@ -130,4 +130,75 @@ outside display scale; replayed by `scale.chk.sub`. -/
 theorem sub_image_parent_bound_sharp :
     Chk.subImageArea ⟨2147483647, 0⟩ ⟨⟨-1, -1⟩, ⟨4294967295, 4294967295⟩⟩ = none := by decide
 
+/-! ### `draw_sub_image` called directly (streams `scale.reject drawsub`, `scale.chk.drawsub`)
+
+`sub_image()` crops the area before it is stored; a DIRECT call of
+`ImageDrawable::draw_sub_image(&image, &mut target, &area)` (public, although "not meant for user
+code") hands any area to the guard of `ImageRaw::draw_sub_image`, resp. to the corner arithmetic
+of `SubImage::draw_sub_image`. Both as repaired by /repo a083ac5 (`u64` sums; `checked_add`). -/
+
+/-- **`ImageRaw::draw_sub_image` rejects without a panic**: for EVERY area — any `i32` corner, any
+`u32` size — and an image up to 2^28 x 2^28 of any depth, the checked kernel returns, and decides
+and skips like the plain guard (`plainSubImageSkips` = the condition and the arguments of
+`Img.ImageRaw.drawSubImage`): nothing is drawn unless the area lies completely inside. -/
+theorem draw_sub_image_total {im : ImageRaw} (hv : validBits im.bits = true)
+    (hw : im.size.w ≤ 268435456) (hh : im.size.h ≤ 268435456) {area : Rect}
+    (hx : -2147483648 ≤ area.tl.x ∧ area.tl.x ≤ 2147483647)
+    (hy : -2147483648 ≤ area.tl.y ∧ area.tl.y ≤ 2147483647) (haw : area.size.w ≤ 4294967295)
+    (hah : area.size.h ≤ 4294967295) :
+    Chk.drawSubImageSkips im area = some (plainSubImageSkips im area) :=
+  drawSubImageSkips_total hv hw hh hx hy haw hah
+example : validBits 1 = true ∧ (5 : Nat) ≤ 268435456 ∧ (-2147483648 : Int) ≤ -2147483648 ∧
+    (4294967295 : Nat) ≤ 4294967295 := by decide
+
+/-- The plain decision is the guard of the plain image model: "nothing drawn" exactly when the
+area is zero sized or not completely inside the image. -/
+theorem draw_sub_image_draws_iff_inside (im : ImageRaw) (area : Rect) :
+    (plainSubImageSkips im area).isSome = true ↔
+      ¬ (area.isZeroSized = true ∨ area.tl.x < 0 ∨ area.tl.y < 0 ∨
+        area.tl.x.toNat + area.size.w > im.size.w ∨ area.tl.y.toNat + area.size.h > im.size.h) := by
+  unfold plainSubImageSkips
+  split <;> simp_all
+
+/-- **`SubImage::draw_sub_image` rejects without a panic** for every area and every own corner: a
+translated corner that is not representable is rejected by `checked_add`, exactly as the plain
+model (which adds in unbounded integers and then finds the corner negative or beyond the image)
+decides. -/
+theorem sub_image_draw_sub_image_total {im : ImageRaw} (hv : validBits im.bits = true)
+    (hw : im.size.w ≤ 268435456) (hh : im.size.h ≤ 268435456) {own area : Rect}
+    (hox : -2147483648 ≤ own.tl.x ∧ own.tl.x ≤ 2147483647) (hoy : -2147483648 ≤ own.tl.y ∧ own.tl.y ≤ 2147483647)
+    (hx : -2147483648 ≤ area.tl.x ∧ area.tl.x ≤ 2147483647)
+    (hy : -2147483648 ≤ area.tl.y ∧ area.tl.y ≤ 2147483647) (haw : area.size.w ≤ 4294967295)
+    (hah : area.size.h ≤ 4294967295) :
+    Chk.subDrawSubImageSkips im own area = some (plainSubImageSkips im (area.translate own.tl)) :=
+  subDrawSubImageSkips_total hv hw hh hox hoy hx hy haw hah
+example : validBits 24 = true ∧ (2147483647 : Int) ≤ 2147483647 := by decide
+
+/-- Why the repair was needed: the old guard added in `u32` also for non-negative corners
+(corner `(1, 0)`, width `u32::MAX`: `scale.reject drawsub 1 0 0 1 0 4294967295 1`; the same for
+the height); the repaired guard rejects these areas. -/
+theorem old_draw_sub_image_u32_sum_overflows :
+    Chk.Old.drawSubImageSkips ⟨1, .le, [], ⟨5, 3⟩⟩ ⟨⟨1, 0⟩, ⟨4294967295, 1⟩⟩ = none ∧
+    Chk.Old.drawSubImageSkips ⟨1, .le, [], ⟨5, 3⟩⟩ ⟨⟨0, 1⟩, ⟨1, 4294967295⟩⟩ = none ∧
+    Chk.drawSubImageSkips ⟨1, .le, [], ⟨5, 3⟩⟩ ⟨⟨1, 0⟩, ⟨4294967295, 1⟩⟩ = some none ∧
+    Chk.drawSubImageSkips ⟨1, .le, [], ⟨5, 3⟩⟩ ⟨⟨0, 1⟩, ⟨1, 4294967295⟩⟩ = some none :=
+  old_drawSubImageSkips_overflows
+
+/-- ... and `SubImage::draw_sub_image` translated the area with `Point + Point`
+(`scale.reject drawsub 1 0 1 2147483647 0 0 0`). -/
+theorem old_sub_image_forward_area_overflows :
+    Chk.Old.subImageForwardArea ⟨⟨1, 1⟩, ⟨3, 2⟩⟩ ⟨⟨2147483647, 0⟩, ⟨0, 0⟩⟩ = none ∧
+    Chk.subDrawSubImageSkips ⟨1, .le, [], ⟨5, 3⟩⟩ ⟨⟨1, 1⟩, ⟨3, 2⟩⟩ ⟨⟨2147483647, 0⟩, ⟨0, 0⟩⟩ = some none :=
+  old_subImageForwardArea_overflows
+
+/-- **Why the sign tests `x < 0 || y < 0` stand in front of the sums** (the seeded change of round
+3 removed them from the old `u32` guard): then every non-zero-sized area that straddles or touches
+the left edge from outside (`-width <= x <= -1`) overflows the `u32` sum — a panic instead of a
+rejection. -/
+theorem seeded_draw_sub_image_without_sign_test_panics (im : ImageRaw) {area : Rect}
+    (hz : area.isZeroSized = false) (hx : -2147483648 ≤ area.tl.x ∧ area.tl.x < 0)
+    (hw : -area.tl.x ≤ (area.size.w : Int)) : Chk.Seeded.drawSubImageRejects im area = none :=
+  Seeded.drawSubImageRejects_panics im hz hx hw
+example : (⟨⟨-1, 0⟩, ⟨1, 1⟩⟩ : Rect).isZeroSized = false ∧ (-(-1 : Int)) ≤ ((1 : Nat) : Int) := by decide
+
 end EG.C08
